@@ -801,6 +801,18 @@ func genC17(g *Gen, tier string, emit func(op string, args ...string)) {
 		c17Emit(emit, d, o)
 		c17Emit(emit, &dictionary.Dictionary{Attributes: d.Attributes}, o) // same refs, no external VALUE
 	}
+	// 3e. an attribute that is declared HERE and also named by a -ref option: its VALUEs belong to the local
+	//     declaration (type, helpers and constants are all generated here, nothing is emitted as an extension of
+	//     the other package), top-level and inside a vendor
+	for k := 0; k < len(c17Refs) && k < 3; k++ {
+		r := c17Refs[k]
+		o := dsGenOpts{pkg: "p", refs: map[string]string{r[0]: r[1]}}
+		a := &dictionary.Attribute{Name: r[0], OID: dictionary.OID{6}, Type: dictionary.AttributeInteger}
+		vals := []*dictionary.Value{{Attribute: r[0], Name: "Local-One", Number: 1}, {Attribute: r[0], Name: "Local-Two", Number: 2}}
+		c17Emit(emit, &dictionary.Dictionary{Attributes: []*dictionary.Attribute{a}, Values: vals}, o)
+		c17Emit(emit, &dictionary.Dictionary{Attributes: []*dictionary.Attribute{a}}, o)
+		c17Emit(emit, &dictionary.Dictionary{Vendors: []*dictionary.Vendor{{Name: "Ven-R", Number: 77, Attributes: []*dictionary.Attribute{a}, Values: vals}}}, o)
+	}
 	// 3d. external attributes whose NAME normalises to an identifier that starts with a digit, is empty, or is
 	//     spelled out: the text is refused by go/format exactly when a VALUE is declared for a name like "-1"
 	for _, name := range []string{"-1", "_1", "--9x", "1", "3Com", "-", "+", "a b", "Ok-Name", "a-1", "_"} {
